@@ -17,11 +17,11 @@ RULE = ('the C01 event alphabet (single-connection regime) plus REST sends (upda
         '(frames >= the type minimum length); distinct = distinct abstract world fingerprints')
 ASSUMPTIONS = ['simulated Twisted reactor/transport (verif/shims)', 'reference deframer vlib/wire.py',
                'frames completed in the same chunk after the one on which the agent closed: receive side of that connection not judged']
-SHARD_TIMEOUT = {'quick': 240, 'thorough': 1500}
+SHARD_TIMEOUT = {'quick': 600, 'thorough': 1500}
 DEPTH = {'quick': (3, 6), 'thorough': (4, 8)}
 PARTS = {'quick': 12, 'thorough': 15}
 WALKS = {'quick': (320, 150), 'thorough': (8000, 400)}
-BUDGET = {'quick': 40, 'thorough': 700}
+BUDGET = {'quick': 300, 'thorough': 700}
 REST = ('R_UPD', 'R_WD', 'R_RR', 'R_BIN', 'R_RR6', 'R_RRVPN', 'R_UPDBAD', 'R_UPDNOATTR', 'R_BINBAD')
 ALPHA = S.ALPHABET_C01 + ['OPEN_nocap', 'UPD_atoverrun'] + S.ODD_LENGTH
 
@@ -117,6 +117,9 @@ def floors(m, tier):
               'recv:Opens', 'recv:Updates', 'recv:Notifications', 'recv:Keepalives', 'recv:RouteRefresh'):
         if m['maxima'].get('max_' + k, 0) < 1:
             unmet.append('no frame of kind %s ever on the wire' % k)
+    if tier == 'quick' and m['counters'].get('truncated_shards', 0):
+        # the breadth-first part is meant to complete in the quick tier: a search cut by its time box is not 'held'
+        unmet = list(unmet) + ['%d breadth-first shard(s) were cut by their time box' % m['counters']['truncated_shards']]
     return unmet
 
 
